@@ -108,9 +108,10 @@ class PriceLimitRule(EventABC):
         return order_price
 
     def hooked_before_order(self, simulator: Simulator, order: Order) -> None:
-        new_price: Optional[float] = self.get_limited_price(
-            order, simulator.id2market[order.market_id]
-        )
+        market: Market = simulator.id2market[order.market_id]
+        if market not in self.target_markets.values():
+            return
+        new_price: Optional[float] = self.get_limited_price(order, market)
         if order.price != new_price:
             self.activation_count += 1
         order.price = new_price
